@@ -310,6 +310,12 @@ func trimErrorCodePrefix(err error, httpStatus int, errorCode string) string {
 	if errorCode != "" {
 		buf = buf[:0]
 		buf = appendErrorCodePrefix(buf, errorCode)
+		if msg == string(buf) {
+			// This is what [WireError.Error] makes of an empty message:
+			// keep it empty rather than letting the code text become the
+			// message on the next hop.
+			return ""
+		}
 		buf = append(buf, ": "...)
 		msg = strings.TrimPrefix(msg, string(buf))
 	}
